@@ -49,8 +49,9 @@ def branch_of(reg, p, threshold):
     return "bias-corrected-no-zeros" if raw <= 5 * m else "raw"
 
 
-def tuned_lc(p, threshold, side):
-    """An array whose number of zero registers puts linear counting just below/above threshold[p]."""
+def tuned_lc(p, threshold, side, offset=0):
+    """An array whose number of zero registers puts linear counting just below/above threshold[p] (offset moves the zero
+    count a few registers further away from the switch point)."""
     m = 1 << p
     vstar = m * math.exp(-threshold / m)
     v = int(math.ceil(vstar)) if side == "below" else int(math.floor(vstar))
@@ -58,6 +59,7 @@ def tuned_lc(p, threshold, side):
         v -= 1
     if side == "below" and m * math.log(m / v) > threshold:
         v += 1
+    v = max(1, min(m - 1, v + (offset if side == "below" else -offset)))
     reg = np.full(m, 2, np.uint8)
     reg[:v] = 0
     reg[v:: 3] = 1
@@ -95,6 +97,8 @@ def gen_cases(ctx):
                 yield {"p": p, "kind": "uniform", "rank": int(rng.integers(1, 6))}
                 for side in ("below", "above"):
                     yield {"p": p, "kind": "lc-threshold", "side": side}
+                    for off in (1, 2, 3):
+                        yield {"p": p, "kind": "lc-threshold", "side": side, "offset": off}
                     yield {"p": p, "kind": "raw-5m", "side": side, "fine": int(rng.integers(3, 40))}
             for load in (0.01, 0.1, 0.5, 1.0, 2.0, 3.0, 4.0, 5.0, 6.0, 10.0, 30.0, 100.0):
                 n = max(1, int(load * m * (0.8 + 0.4 * rng.random())))
@@ -129,7 +133,7 @@ def build(case, mon):
     elif k == "uniform":
         reg = np.full(m, case["rank"], np.uint8)
     elif k == "lc-threshold":
-        reg = tuned_lc(p, float(hll.threshold), case["side"])
+        reg = tuned_lc(p, float(hll.threshold), case["side"], case.get("offset", 0))
     elif k == "raw-5m":
         reg = tuned_5m(p, case["side"], case["fine"])
     elif k == "ideal":
@@ -159,7 +163,7 @@ def run_case(case, ctx, mon):
     br = branch_of(reg, p, thr)
     mon.seen("branch", f"p{p}:{br}")
     mon.seen("branch_any_p", br)
-    if case["kind"] in ("lc-threshold", "raw-5m"):
+    if case["kind"] in ("lc-threshold", "raw-5m") and not case.get("offset"):
         mon.seen("switch_side", f"p{p}:{case['kind']}:{case['side']}:{br}")
     mon.nontrivial(bool(np.any(reg)))
     if want == 0.0:
